@@ -1,2 +1,119 @@
-(* C14 — placeholder, theorems follow *)
-From SV Require Import C14.Model.
+(* C14 — each broker call gets its own response or an error.
+   Property statements only; each is closed by [exact] of a lemma proved in C14/Proofs*.v or C14/Tie.v.
+   The model (C14/Model.v): callers and the receiver goroutine of one Broker connection as a transition
+   system; [run c sched] is the state after schedule [sched] (None = some step was not enabled).  The
+   statements hold for every configuration [c] (any number and mix of calls, any MaxOpenRequests >= 1,
+   any server byte stream and ending) and every schedule. *)
+From Coq Require Import List ZArith.
+From SV Require Import Gen.DecTypes Gen.DecC14 C14.Model C14.Proofs1 C14.Proofs2 C14.Proofs3 C14.Proofs4 C14.Tie.
+Import ListNotations.
+Open Scope Z_scope.
+
+(* A call that returns a packet returns the body of the frame the server sent for that very request: the
+   call's promise is the i-th response-expecting request on the wire, the server's stream starts with i
+   well-formed frames carrying the ids of the i earlier requests, then comes a well-formed frame whose
+   header carries this call's correlation id and whose body is the packet. *)
+Theorem c14_own_response : forall c sched s k buf,
+  run c sched = Some s -> result_of s k = Some (RPacket buf) ->
+  exists i p pre_raws rw post,
+    nth_error (all_promises s) i = Some p /\ p_k p = k /\ call_id s k = Some (p_id p) /\
+    nth_error (resp_ids (s_wire s)) i = Some (p_id p) /\
+    Forall2 (fun q r => exists b, frame_for (c_maxresp c) q r b) (firstn i (all_promises s)) pre_raws /\
+    frame_for (c_maxresp c) p rw buf /\
+    c_stream c = concat pre_raws ++ rw ++ post.
+Proof. exact own_response_stmt. Qed.
+Print Assumptions c14_own_response.
+
+(* no call owns two promises (so "the call's promise" above is unambiguous) *)
+Theorem c14_one_promise_per_call : forall c sched s, run c sched = Some s -> NoDup (map p_k (all_promises s)).
+Proof. exact one_promise_stmt. Qed.
+Print Assumptions c14_one_promise_per_call.
+
+(* The promise in service is the oldest request still awaiting its response; a readable, well-formed
+   header with any other id is not delivered: the promise fails and the connection is dead. *)
+Theorem c14_mismatch_is_fault : forall c sched s p,
+  run c sched = Some s -> s_recv s = RServing p -> s_dead s = None ->
+  nth_error (resp_ids (s_wire s)) (length (s_hist s)) = Some (p_id p) /\
+  forall h len id s',
+    read_full (header_len (p_hv p)) (s_stream s) (c_term c) = inl h ->
+    decode_header (p_hv p) (c_maxresp c) h = inl (len, id) -> id <> p_id p ->
+    step c s RServe = Some s' ->
+    s_recv s' = RDeliv p (RErr 5) /\ s_dead s' = Some 5.
+Proof. exact mismatch_stmt. Qed.
+Print Assumptions c14_mismatch_is_fault.
+
+(* After the first read / header-decode / correlation fault (dead = Some e): every promise served from the
+   fault on was answered with e; whatever is scheduled next the connection stays dead with e, no call
+   returns a packet any more, and nobody is left waiting: as long as a call has not returned some step is
+   enabled, every step decreases [measure], and the calls can all be completed. *)
+Theorem c14_dead_sticky : forall c sched1 s1 e,
+  1 <= c_max c -> run c sched1 = Some s1 -> s_dead s1 = Some e ->
+  (exists good bad, s_hist s1 = good ++ bad /\ bad <> [] /\
+                    Forall (fun x => exists b, snd x = RPacket b) good /\ Forall (fun x => snd x = RErr e) bad) /\
+  (forall sched2 s2, run_from c s1 sched2 = Some s2 ->
+     s_dead s2 = Some e /\
+     (forall k buf, result_of s2 k = Some (RPacket buf) -> result_of s1 k = Some (RPacket buf)) /\
+     (length sched2 + measure s2 <= measure s1)%nat /\
+     (all_done s2 = false -> exists ch s3, step c s2 ch = Some s3)) /\
+  (exists more s', run_from c s1 more = Some s' /\ all_done s' = true).
+Proof. exact dead_sticky_stmt. Qed.
+Print Assumptions c14_dead_sticky.
+
+(* The same progress statement for every reachable state (faulted or not, Close racing or not): schedules
+   are bounded by the initial measure, a state with an unanswered call has an enabled step, and all calls
+   can be completed. *)
+Theorem c14_no_call_left_waiting : forall c sched s,
+  1 <= c_max c -> run c sched = Some s ->
+  (length sched + measure s <= measure (init c))%nat /\
+  (all_done s = false -> exists ch s', step c s ch = Some s') /\
+  (exists more s', run_from c s more = Some s' /\ all_done s' = true).
+Proof. exact no_hang_stmt. Qed.
+Print Assumptions c14_no_call_left_waiting.
+
+(* wire order = promise order: the ids of all promises (answered, in service, in the channel, in the
+   writer's hand), oldest first, are the ids of the response-expecting requests in the order written *)
+Theorem c14_order : forall c sched s, run c sched = Some s -> map p_id (all_promises s) = resp_ids (s_wire s).
+Proof. exact order_stmt. Qed.
+Print Assumptions c14_order.
+
+(* The wire bound "written - answered <= MaxOpenRequests" is false of the pinned code: MaxOpenRequests = 1,
+   four callers, silent server, two requests on the wire. *)
+Theorem c14_wire_bound_refuted :
+  exists c sched s, c_max c = 1 /\ run c sched = Some s /\ outstanding s = 2 /\
+                    map fst (s_wire s) = [0; 1] /\ all_done s = false.
+Proof. exact wire_bound_refuted. Qed.
+Print Assumptions c14_wire_bound_refuted.
+
+Theorem c14_wire_bound_full_false : ~ wire_bound_full.
+Proof. exact wire_bound_full_false. Qed.
+Print Assumptions c14_wire_bound_full_false.
+
+(* what does hold: never more than MaxOpenRequests + 1 *)
+Theorem c14_wire_bound_partial : forall c sched s,
+  1 <= c_max c -> run c sched = Some s -> outstanding s <= c_max c + 1.
+Proof. exact wire_bound_partial_stmt. Qed.
+Print Assumptions c14_wire_bound_partial.
+
+(* the trace replay executed by the correspondence accepts a log only by exhibiting a run of this model *)
+Theorem c14_replay_is_run : forall c log s, replay_log c log = Some s -> exists sched, run c sched = Some s.
+Proof. exact replay_stmt. Qed.
+Print Assumptions c14_replay_is_run.
+
+(* ties of the receiver's decisions to the definitions regenerated from broker.go / response_header.go *)
+Theorem c14_tie_header_length : forall hv, header_len hv = get_header_length hv.
+Proof. exact tie_header_length. Qed.
+Print Assumptions c14_tie_header_length.
+
+Theorem c14_tie_header_decode : forall hv mr b0 b1 b2 b3 c0 c1 c2 c3 rest,
+  decode_header hv mr (b0 :: b1 :: b2 :: b3 :: c0 :: c1 :: c2 :: c3 :: rest) =
+  let '(len, id, _, err) :=
+      response_header_decode 0 0 [(be32s b0 b1 b2 b3, ENil); (be32s c0 c1 c2 c3, ENil)] hv mr (tag_err rest) in
+  if gerr_eqb err ENil then inl (len, id)
+  else inr (if (len <=? 4) || (len >? mr) then 4 else 8).
+Proof. exact tie_header_decode. Qed.
+Print Assumptions c14_tie_header_decode.
+
+Theorem c14_tie_receive_one : forall mr t p st,
+  mr < 2147483648 -> serve_dec mr t p st = (let '(r, d, _, _) := serve mr t p st in (r, d)).
+Proof. exact tie_receive_one. Qed.
+Print Assumptions c14_tie_receive_one.
